@@ -25,7 +25,7 @@ from common import (POSITIONS, RULES, Layout, build_grid, dec_arr, dyadic, dyadi
 
 RULE = ("random signatures (1-3 inputs, 0-2 outputs, 1-2 dummy axes per argument, dummy names a/b/c), random "
         "bindings to 1-3 real axes, widths 0..2 per side per bound axis, rule/fill by decorator / call / both, "
-        "string or type-hint signature, with 10% off-position inputs; non-trivial = some non-zero width "
+        "string or type-hint signature, user function given as def / lambda / functools.partial / callable instance / bound method / def with ordinary hints (apply route), with 10% off-position inputs; non-trivial = some non-zero width "
         "or >= 2 core dims; distinct by case")
 
 PADMODE = {"periodic": "wrap", "fill": "constant", "extend": "edge"}
@@ -81,7 +81,40 @@ def gen_case(rng, tier, i):
             "bw": bw, "opts": opts, "other": other, "how": how, "hints": rng.random() < 0.3 and n_out > 0
             and all(len(o) > 0 for o in outs) and all(len(a) > 0 for a in ins), "data": data,
             "grid_boundary": rng.choice(RULES), "grid_fill": rng.choice([0.0, 0.0, 3.0, -1.5]),
-            "none_at_call": none_at_call, "pad_before": rng.random() < 0.75}
+            "none_at_call": none_at_call, "pad_before": rng.random() < 0.75,
+            # what kind of callable the user function is (exercised where the signature is given as a string
+            # to apply_as_grid_ufunc, which is documented to take any callable)
+            "callable": rng.choice(["def", "def", "partial", "instance", "method", "lambda", "hinted_def"])}
+
+
+class _Instance:
+    """a user function that is an object with __call__"""
+
+    def __init__(self, f):
+        self.f = f
+
+    def __call__(self, *arrs):
+        return self.f(*arrs)
+
+    def method(self, *arrs):
+        return self.f(*arrs)
+
+
+def as_callable(func, kind):
+    import functools
+    if kind == "partial":
+        return functools.partial(lambda tag, *arrs: func(*arrs), "bound-first-argument")
+    if kind == "instance":
+        return _Instance(func)
+    if kind == "method":
+        return _Instance(func).method
+    if kind == "lambda":
+        return lambda *arrs: func(*arrs)
+    if kind == "hinted_def":           # ordinary (non-Annotated) type hints say nothing about positions
+        def hinted(*arrs: np.ndarray) -> np.ndarray:
+            return func(*arrs)
+        return hinted
+    return func
 
 
 def sig_text(ins, outs):
@@ -152,7 +185,8 @@ def eval_case(case, drv):
     text = sig_text(ins, outs_eff)
     try:
         if how == "apply":
-            res = grid.apply_as_grid_ufunc(func, *args, axis=axis, signature=text, **call_kw)
+            res = grid.apply_as_grid_ufunc(as_callable(func, case.get("callable", "def")), *args, axis=axis,
+                                           signature=text, **call_kw)
         else:
             if case["hints"]:
                 params = ", ".join(f"x{j}: Annotated[np.ndarray, {','.join(n + ':' + p for n, p in a)!r}]"
@@ -241,6 +275,7 @@ def eval_case(case, drv):
             detail["outputs"] = {"dims": list(r.dims), "want_core": want_core}
     return {"corr_ok": corr_ok, "prop_ok": prop_ok,
             "branch": f"{how}:{'hints' if case['hints'] and how != 'apply' else 'str'}:in{len(ins)}out{len(outs)}"
+            + (":" + case.get("callable", "def") if how == "apply" else "")
             + ("" if pad_before else ":padafter"),
             "detail": detail or None}
 
